@@ -879,7 +879,7 @@ class C11Check(PCheck):
     def budgets(self, tier):
         if tier == 'thorough':
             return {'runs': 1500, 'determinism': 16, 'wall': 3300, 'workers': 12}
-        return {'runs': 160, 'determinism': 6, 'wall': 900, 'workers': 12}
+        return {'runs': 110, 'determinism': 5, 'wall': 900, 'workers': 12}
 
     def generate(self, rng, run_index, tier):
         seed = int(os.environ.get('VERIF_SEED', '0') or 0)
@@ -956,7 +956,7 @@ class C11Check(PCheck):
                         if p == q:
                             continue
                         fp, fq = _num(p), _num(q)
-                        if fp is None or fq is None or abs(fp - fq) > 5.0:
+                        if fp is None or fq is None or abs(fp - fq) > 15.0:
                             return False
             elif cls == 'coords':
                 if detail['n'] > len(detail['bad']):
